@@ -126,9 +126,8 @@ def replayBalances (cfg : Cfg) (evs : List Event) (chain : List Block) : BalTabl
 /-! ### replay and projection -/
 
 def replay (cfg : Cfg) (evs : List Event) (chain : List Block) : ReplayState :=
-  let rs := evs.foldl (applyEvent chain) {}
-  let (bal, rest) := replayBalances cfg evs chain
-  { rs with balances := bal, leftover := rest.length }
+  { evs.foldl (applyEvent chain) {} with
+    balances := (replayBalances cfg evs chain).1, leftover := (replayBalances cfg evs chain).2.length }
 
 def project (_cfg : Cfg) (st : State) : ReplayState :=
   { loc := st.seq2sp
